@@ -22,6 +22,7 @@ logging.disable(logging.CRITICAL)  # stub S1 (DESIGN.md section 4)
 class Ctx:
     replay = False      # concrete mode
     raw = False         # builders return bare trees
+    envelope_layout = None   # header layout of the next envelopes ('short' / 'long' / None)
     docs = []           # XML texts rendered in replay mode, in order of construction
     nontrivial = 0      # side channel: paths on which the interesting event happened
     info = {}           # details filled by harnesses (observed / expected / fingerprint)
@@ -30,6 +31,7 @@ class Ctx:
     def reset(cls, replay=False):
         cls.replay = replay
         cls.raw = False
+        cls.envelope_layout = None
         cls.docs = []
         cls.nontrivial = 0
         cls.info = {}
@@ -86,6 +88,12 @@ def wrap(root, cls=None):
 
 
 def envelope(base, msg_id='2', mos_id='m.mos', ncs_id='ncs'):
+    lay = Ctx.envelope_layout
+    if lay == 'short':        # fewer header children than a roCreate built with the default layout
+        return E('mos', T('messageID', msg_id), base)
+    if lay == 'long':
+        return E('mos', T('mosID', mos_id), T('ncsID', ncs_id), T('messageID', msg_id), T('roType', 'x'), base,
+                 T('trailer', 'y'))
     return E('mos', T('mosID', mos_id), T('ncsID', ncs_id), T('messageID', msg_id), base)
 
 
@@ -215,6 +223,30 @@ class Outcome:
 
     def cats(self):
         return [w.category.__name__ for w in self.warns]
+
+
+def prehist_replace(ro):
+    """Pre-history: a roReplace carrying exactly the current content of the running order (the children of
+    roCreate are handed over to the message).  The state is the same as before, but it was reached through
+    RunningOrderReplace.merge: the roCreate element is a new object and every child a deep copy."""
+    rc = rc_of(ro)
+    kids = list(rc)
+    for c in kids:
+        rc.remove(c)
+    root = envelope(E('roReplace', *kids), msg_id='0')
+    out = merge(ro, wrap(root))
+    if out.raised:
+        raise RuntimeError('pre-history roReplace failed: %r' % (out.exc,))
+    return ro
+
+
+def same_obj(a, b):
+    """identity, or equality for values that went through a deep copy"""
+    if a is b:
+        return True
+    if a is None or b is None:
+        return False
+    return a == b
 
 
 def merge(ro, msg):
